@@ -6,6 +6,8 @@ use crate::gen;
 use crate::monitor::{digest, observe, par_items, Cfg, Ctx, Report};
 use crate::oracle::groups::{self, Pres, Table};
 use crate::oracle::pi1;
+use crate::rng::Rng;
+use crate::shapes;
 use rust_dsymbols::fpgroups::cosets::coset_tables;
 use serde_json::{json, Value};
 use std::collections::BTreeMap;
@@ -31,6 +33,23 @@ pub fn lib_tables(ctx: &mut Ctx, c: &Case, input: &dyn Fn() -> Value) -> Option<
     if raw.len() > MAX_TABLES {
         ctx.out_of_domain("more-than-150000-subgroup-classes-below-the-index-bound");
         return None;
+    }
+    // the enumeration is an Iterator: the tables must not depend on how the caller drives it
+    if raw.len() <= 400 && raw.iter().all(|(_, t)| t.is_some()) {
+        let key = |len: usize, t: &Option<Table>| format!("{} {:?}", len, t.as_ref().map(|t| &t.t));
+        let plain: Vec<String> = raw.iter().map(|(l, t)| key(*l, t)).collect();
+        let h = digest(&(&c.pres.rels, n, k));
+        let mode = (h % shapes::CONSUME_MODES as u64) as usize;
+        let mut rng = Rng::stream(h, 12);
+        match observe(|| shapes::consume(coset_tables(n, &rels, k), plain.len(), mode, &mut rng)) {
+            Ok(cons) => {
+                ctx.count("consumption_modes_compared_with_plain_next");
+                if let Some(problem) = shapes::judge_consumed(&cons, &plain, |t| key(t.len(), &from_coset_table(t))) {
+                    ctx.violation("output-depends-on-how-the-iterator-is-driven", "cosets::coset_tables as Iterator", input(), json!({"mode": cons.mode, "problem": problem}), "the same tables in the same order whichever Iterator methods the caller uses");
+                }
+            }
+            Err(p) => ctx.violation(&format!("panic@{}", p.short_loc()), "cosets::coset_tables as Iterator", input(), json!({"mode": mode, "panic": p.to_json()}), "no panic"),
+        }
     }
     let mut out = vec![];
     for (pos, (len, t)) in raw.into_iter().enumerate() {
